@@ -4,6 +4,7 @@ mod c07;
 mod c15;
 mod c16;
 mod c17;
+mod c19;
 mod conv;
 mod dev;
 mod dump;
@@ -34,6 +35,7 @@ fn main() {
         "c07-run" => c07::run(&arg(&args, "--progs").expect("--progs"), &arg(&args, "--mode").unwrap_or_else(|| "sample".into()), seed, argn(&args, "--samples", 100) as usize, &out),
         "c15-run" => c15::run(&arg(&args, "--progs").expect("--progs"), arg(&args, "--allcuts").is_some(), &out),
         "c16-run" => c16::run(&arg(&args, "--progs").expect("--progs"), seed, argn(&args, "--scheds", 6) as usize, &out),
+        "c19-run" => c19::run(&arg(&args, "--sources").expect("--sources"), &out),
         "c17-run" => c17::run(&arg(&args, "--progs").expect("--progs"), argn(&args, "--depth", 2) as usize, &out),
         "lib-dump" => dump::run(&arg(&args, "--file").expect("--file"), &out),
         "e57-run" => prog::run_programs(&arg(&args, "--progs").expect("--progs"), &out),
